@@ -10,7 +10,7 @@ mod test_value;
 use half::f16;
 use serde::{ser::SerializeSeq, Deserialize, Serialize};
 
-use crate::internal::error::Result;
+use crate::internal::error::{fail, Result};
 
 use marrow::datatypes::{Field, FieldMeta};
 
@@ -228,5 +228,38 @@ impl std::fmt::Display for ChildName<'_> {
         } else {
             write!(f, "<empty>")
         }
+    }
+}
+
+/// The conversion of fixed-size arrays with zero-sized elements to `arrow` / `arrow2` arrays is not
+/// supported: it divides by the element size
+#[allow(dead_code)]
+pub fn check_fixed_sizes(array: &marrow::array::Array) -> Result<()> {
+    use marrow::array::Array as A;
+    match array {
+        A::FixedSizeBinary(array) if array.n == 0 => {
+            fail!("FixedSizeBinary arrays with elements of size 0 cannot be converted to arrow or arrow2 arrays")
+        }
+        A::FixedSizeList(array) if array.n == 0 => {
+            fail!(
+                "FixedSizeList arrays with elements of size 0 cannot be converted to arrow or arrow2 arrays"
+            )
+        }
+        A::FixedSizeList(array) => check_fixed_sizes(&array.elements),
+        A::List(array) => check_fixed_sizes(&array.elements),
+        A::LargeList(array) => check_fixed_sizes(&array.elements),
+        A::Struct(array) => array
+            .fields
+            .iter()
+            .try_for_each(|(_, field)| check_fixed_sizes(field)),
+        A::Map(array) => {
+            check_fixed_sizes(&array.keys)?;
+            check_fixed_sizes(&array.values)
+        }
+        A::Union(array) => array
+            .fields
+            .iter()
+            .try_for_each(|(_, _, field)| check_fixed_sizes(field)),
+        _ => Ok(()),
     }
 }
